@@ -130,7 +130,7 @@ def static_call_sites(facts):
     return sites, refs
 
 
-def candidates(facts, pinned):
+def candidates(facts, pinned, allow_pub=()):
     """Bodies that may be inlined into their single caller."""
     sites, refs = static_call_sites(facts)
     out = {}
@@ -138,7 +138,7 @@ def candidates(facts, pinned):
         fi = facts.fns.get(b.path)
         if fi is None or b.j.get("def_kind") not in ("Fn", "AssocFn"):
             continue
-        if fi.get("pub") or fi.get("impl_trait"):
+        if fi.get("impl_trait") or (fi.get("pub") and k not in allow_pub):
             continue
         if k in pinned or b.path in pinned or k in refs:
             continue
